@@ -172,7 +172,7 @@ func (f *fakeDocker) ContainerLogs(ctx context.Context, id string, options apico
 	if c.OpenFail {
 		return nil, errOpenInjected
 	}
-	rd := &evReader{evs: append([]evt(nil), c.Events...), cid: c.ID}
+	rd := &evReader{evs: append([]evt(nil), c.Events...), cid: c.ID, ctx: ctx}
 	f.mu.Lock()
 	f.readers = append(f.readers, rd)
 	f.opens++
